@@ -199,6 +199,18 @@ def from_tlc(ctx, rng, d, scn, k):
     return root, rx(omit_names), rx(dep_names)
 
 
+EDGE = (0x00, 0x09, 0x0A, 0x0D, 0x20, 0xFF)
+
+
+def edged(b: bytes, n: int) -> bytes:
+    """Every third payload gets a first and last byte that text handling treats specially (NUL, whitespace, 0xFF)."""
+    if n % 3 or not b:
+        return b
+    a = bytearray(b)
+    a[0], a[-1] = EDGE[(n // 3) % 6], EDGE[(n // 18) % 6]
+    return bytes(a)
+
+
 def random_case(ctx, rng, d, k):
     cnt = [0]
 
@@ -206,7 +218,7 @@ def random_case(ctx, rng, d, k):
         cnt[0] += 1
         me = cnt[0]
         pays = [(rng.choice(["#app", "#rad", "cache://x", "p", "#app.bin", "długi"]) + rng.choice(["", "", "1", "2"]),
-                 envgen.blob(rng.choice([0, 1, 16, 300]), me * 10 + i)) for i in range(rng.choice([0, 1, 2, 2]))]
+                 edged(envgen.blob(rng.choice([0, 1, 16, 300]), me * 10 + i), k + me + i)) for i in range(rng.choice([0, 1, 2, 2]))]
         pays = list({n: (n, b) for n, b in pays}.values())
         deps = []
         if depth < 3:
